@@ -36,6 +36,17 @@ THEOREMS = [
      "let m := run step out AtomicRMW (init seed progs) sched in "
      "map snd (log m) = stream step out (length (log m)) seed"),
     ("c17_locked_safe", "forall (G : Type) (step : G -> G) (out : G -> N), safe step out Locked"),
+    ("c17_locked_no_lost_draw",
+     "forall (G : Type) (step : G -> G) (out : G -> N) (seed : G) (progs sched : list nat), "
+     "let m := run step out Locked (init seed progs) sched in "
+     "map snd (log m) = stream step out (length (log m)) seed /\\ "
+     "(forall t th, nth_error (threads m) t = Some th -> seen th = project t (log m)) /\\ "
+     "glob m = Nat.iter (length (log m)) step seed"),
+    ("c17_locked_no_deadlock",
+     "forall (G : Type) (step : G -> G) (out : G -> N) (seed : G) (progs sched : list nat), "
+     "let m := run step out Locked (init seed progs) sched in "
+     "(exists t th, nth_error (threads m) t = Some th /\\ (todo th <> 0 \\/ ph th <> Idle)) -> "
+     "exists t m', mstep step out Locked m t = Some m'"),
     ("c17_racy_refuted_race",
      "forall (G : Type) (step : G -> G) (out : G -> N) (seed : G), "
      "race Racy (run step out Racy (init seed [1; 1]) [0]) = true"),
@@ -71,8 +82,10 @@ ASSUMPTIONS = ["undefined behaviour as such (compiler assumptions about static m
                "treap results as a function of priorities are the subject of C03 (sequence semantics for every priority stream)"]
 MANIFEST = {
     "text": "Coq theorems (no axioms) about an interleaving model of priority draws, generic in the generator and quantified over "
-            "every number of threads, every program and every schedule: a thread-local generator (the current code), an atomic "
-            "read-modify-write generator and a mutex-protected generator are race free and every thread observes a sequentially explicable stream (thread-local: "
+            "every number of threads, every program and every schedule: a mutex-protected process-wide generator (the current code, "
+            "repo commit b8a7caa: c17_locked_safe, c17_locked_no_lost_draw - the time-ordered log of all draws IS the generator's stream, "
+            "each thread holds its own sub-sequence - and c17_locked_no_deadlock), an atomic read-modify-write generator and a "
+            "thread-local generator are race free and every thread observes a sequentially explicable stream (thread-local: "
             "exactly its solo stream); the unsynchronised static and the split atomic load/store are refuted by witnesses. The "
             "discipline is extracted conservatively from the sources of the treap crate and the code it reaches in rlib_rand on "
             "every run (anything not exactly one of the proved protocols is Unknown = broken obligation) and `safe <discipline>` "
